@@ -734,7 +734,7 @@ def run(ctx: core.Ctx):
         for j, v in enumerate(b):
             add_col(None, [v], [(g[j],)], True, {"profile": "lit", "exc": None, "kind": "select", "form": "lit", "col": f"c{j}", "type": kind_of_value(v)})
         if all(isinstance(v, str) for v in b) and sql is not None:
-            gb, _, bsql = sel(["x"] * len(b))
+            gb, _, bsql = sel([placeholder(v) for v in b])
             stmt_items.append(f"(mkStmt [{'; '.join(py2coq(x) for x in b)}] {armour(sql)} {armour(bsql or '')})")
             stmt_meta.append({"kind": "select", "form": "lit", "sql": sql, "base": bsql, "strings": b})
     ctx.log(f"(b) lit(): {n_lit} select statements; {len(cell_items)} distinct columns in total")
@@ -956,6 +956,12 @@ def eval_cases(ctx, tag, header, items, big=4000):
         for i, r in zip(idx, res):
             out[i] = r
     return out
+
+
+def placeholder(s: str) -> str:
+    """the string with the same statement structure and harmless content: every NUL-free piece becomes x (a str that
+    contains U+0000 is written as CONCAT of its pieces and CHR(0), so the positions of the NULs are structure)"""
+    return "\x00".join("x" if part else "" for part in s.split("\x00"))
 
 
 def one_clean(one):
